@@ -337,8 +337,15 @@ def harness(cfg, ns):
         mg = c.merge(other)
         pl = c + other
         fl = c.copy_flush()
+        # operands that bring no unit: a fresh continuum, and one that only declares an annotator
+        nothing, only_ann = co.Continuum(), co.Continuum()
+        only_ann.add_annotator("yy_declared_only")
+        mg_n, pl_n, mg_a, pl_a = c.merge(nothing), c + nothing, c.merge(only_ann), c + only_ann
         got = c[ANN[0]]
         o = [Obl("copy/merge/+/copy_flush/[]: source unchanged", snap_eq(s0, snap(c)), rz)]
+        for nm, d in (("merge(empty operand)", mg_n), ("+(empty operand)", pl_n), ("merge(operand with an annotator only)", mg_a), ("+(operand with an annotator only)", pl_a)):
+            o.append(Obl(f"{nm}: a new object", d is not c, rz))
+            o += mutate_and_compare(ns, ctx, d, c, f"{nm} vs source", rz)
         for nm, d in (("copy", cp), ("merge", mg), ("+", pl), ("copy_flush", fl)):
             o += mutate_and_compare(ns, ctx, d, c, f"{nm} vs source", rz)
         so = snap(other)
@@ -477,8 +484,17 @@ def replay(case):
             s0 = S(c)
             other = pa.Continuum()
             other.add("zz", Segment(0.0, 2.0), "q")
-            for nm, f in (("copy", lambda: c.copy()), ("merge", lambda: c.merge(other)), ("+", lambda: c + other), ("copy_flush", lambda: c.copy_flush())):
+            nothing, only_ann = pa.Continuum(), pa.Continuum()
+            only_ann.add_annotator("yy_declared_only")
+            for nm, f in (("copy", lambda: c.copy()), ("merge", lambda: c.merge(other)), ("+", lambda: c + other), ("copy_flush", lambda: c.copy_flush()),
+                          ("merge(empty operand)", lambda: c.merge(nothing)), ("+(empty operand)", lambda: c + nothing),
+                          ("merge(operand with an annotator only)", lambda: c.merge(only_ann)), ("+(operand with an annotator only)", lambda: c + only_ann)):
                 d = f()
+                if S(c) != s0:
+                    bad.append(f"{nm} changed the source")
+                if d is c:
+                    bad.append(f"{nm} returned the source object itself")
+                    continue
                 mutate(d)
                 if S(c) != s0:
                     bad.append(f"mutating the result of {nm} changed the source")
